@@ -87,16 +87,52 @@ def argv_of(case):
     return [a.replace('{OUT}', 'out').replace('{MAIN}', 'schema.xml') for a in case['argv']]
 
 
+# AddressSanitizer does not let `operator new` fail the way a normal build does: a request beyond its allocator limit
+# (3.75 GB) ends the process inside the sanitizer ("allocator is out of memory" / "allocation-size-too-big") where the
+# plain binary throws std::bad_alloc or std::length_error.  Such a run says nothing about sbeppc, so the case is run
+# again on the PLAIN binary under an address-space limit, and that outcome is judged (since fix 0033 a diagnostic
+# "unexpected failure: std::bad_alloc" with exit status 1; before it an abort on the uncaught exception).
+ASAN_OOM = re.compile(r'AddressSanitizer: (allocator is out of memory|requested allocation size \S+ .*exceeds maximum '
+                      r'supported size|allocation-size-too-big|out-of-memory)')
+PLAIN_EXE = [None]
+PLAIN_AS_LIMIT = 3 << 30
+oom_reruns = [0]
+
+
+def _huge_length(case):
+    """a `length` attribute of 10^8 or more: the run is resource-bound (the sanitizer spends the time limit touching
+    gigabytes), not a hang of sbeppc"""
+    for data in case.get('files', {}).values():
+        if re.search(rb'length\s*=\s*["\'][^"\']*?\d{9,}', data if isinstance(data, bytes) else str(data).encode()):
+            return True
+    return False
+
+
+def _limit_as():
+    import resource
+    resource.setrlimit(resource.RLIMIT_AS, (PLAIN_AS_LIMIT, PLAIN_AS_LIMIT))
+
+
 def run_case(exe, case, d, timeout=TIMEOUT):
     """-> (rc, output, generated files under every directory the run could have
     written to).  rc < 0: killed by signal; -999: timeout."""
+    rc, out, new = _run_case(exe, case, d, timeout)
+    if PLAIN_EXE[0] and exe != PLAIN_EXE[0] and (ASAN_OOM.search(out) or (rc == -999 and _huge_length(case))):
+        oom_reruns[0] += 1
+        shutil.rmtree(d, ignore_errors=True)
+        rc, out, new = _run_case(PLAIN_EXE[0], case, d, max(timeout, 90), preexec=_limit_as)
+        out = '[re-run on the plain binary under RLIMIT_AS: the hardened run ended in the ASan allocator]\n' + out
+    return rc, out, new
+
+
+def _run_case(exe, case, d, timeout=TIMEOUT, preexec=None):
     materialise(case, d)
     before = snapshot(d)
     env = dict(os.environ)
     env.update(SAN_ENV)
     try:
         p = subprocess.run([exe] + argv_of(case), cwd=d, stdin=subprocess.DEVNULL, stdout=subprocess.PIPE,
-                           stderr=subprocess.STDOUT, timeout=timeout, env=env)
+                           stderr=subprocess.STDOUT, timeout=timeout, env=env, preexec_fn=preexec)
         rc, out = p.returncode, p.stdout.decode('utf-8', 'replace')
     except subprocess.TimeoutExpired as ex:
         rc, out = -999, 'TIMEOUT ' + (ex.stdout or b'').decode('utf-8', 'replace')[-2000:]
@@ -377,6 +413,16 @@ WITNESSES = [
      {'files': {'schema.xml': _schema(msgs='<message name="M" id="1"/>')},
       'argv': ['--schema-name', 'x' * 255] + garble.DEFAULT_ARGV, 'mutation': 'witness'},
      'files-after-reject', r"can't open file"),
+    ('fix 0033: allocation failure is diagnosed (string constant of length 2^64-1)',
+     {'files': {'schema.xml': _schema('<type name="K" primitiveType="char" presence="constant" '
+                                      'length="18446744073709551615">abc</type>',
+                                      '<message name="M" id="1"><field name="k" id="1" type="K"/></message>')},
+      'argv': garble.DEFAULT_ARGV, 'mutation': 'fixed'}, 'diag', r'unexpected failure: std::(bad_alloc|length_error)'),
+    ('fix 0033: allocation failure is diagnosed (string constant of 4 GB: ASan allocator limit, judged on the plain binary)',
+     {'files': {'schema.xml': _schema('<type name="K" primitiveType="char" presence="constant" '
+                                      'length="8026531841">abc</type>',
+                                      '<message name="M" id="1"><field name="k" id="1" type="K"/></message>')},
+      'argv': garble.DEFAULT_ARGV, 'mutation': 'fixed'}, 'diag', r'unexpected failure: std::(bad_alloc|length_error)'),
     ('brace_arg_is_diagnosed', {'files': {'schema.xml': _schema()}, 'argv': ['-{}'], 'mutation': 'fixed'},
      'diag', r'unknown argument: `-\{\}`'),
     ('brace_path_is_diagnosed', {'files': {}, 'argv': ['--output-dir', '{OUT}', 'no{such}.xml'], 'mutation': 'fixed'},
@@ -614,6 +660,7 @@ def witnesses(chk, exe, scratch):
                                  'hint': 'Sbepp.Gen.Pipeline / Sbepp.Properties.C09 describe a different behaviour for '
                                          'this input than the real sbeppc shows'})
     chk.cov['witness_replays'] = res
+    chk.cov['asan_allocator_cases_rerun_on_plain_binary'] = oom_reruns[0]
 
 
 def run_own_extractor(chk):
@@ -640,6 +687,7 @@ def run(chk):
     if exe is None:
         chk.report_unproved('harness-build', 'hardened sbeppc does not build: ' + log[-1500:])
         return
+    PLAIN_EXE[0], _ = sbeppc.build(chk)
     scratch = os.path.join(core.BUILD, 'scratch', 'c09-%d' % os.getpid())
     shutil.rmtree(scratch, ignore_errors=True)
     os.makedirs(scratch)
